@@ -91,6 +91,7 @@ type env struct {
 	heads   []headFact
 	evs     *evlog
 	baseGP  *big.Int
+	levels  []*big.Int // base fees this run may see besides the initial one (the expected cost is logged per level)
 	proposr *packer.Packer
 }
 
@@ -424,8 +425,15 @@ func (e *env) register(s *txSpec) {
 	if s.dlg != nil {
 		dlg = s.dlg.name
 	}
+	// the harness's own computation of what the payer is charged when the tx is priced at a given base fee
+	costs := map[string]any{}
+	if e.net.FC.GALACTICA != math.MaxUint32 {
+		for _, bf := range append([]*big.Int{new(big.Int).SetUint64(thor.InitialBaseFee)}, e.levels...) {
+			costs[bf.String()] = units(new(big.Int).Mul(new(big.Int).SetUint64(t.Gas()), t.EffectiveGasPrice(bf, e.baseGP)))
+		}
+	}
 	e.evs.emit(trace.Ev{"e": "Tx", "h": s.h, "tx": map[string]any{
-		"id": s.id, "org": s.org.name, "dlg": dlg, "cost": units(s.cost), "cap": digits(feeCap(t, e.baseGP)), "prio": digits(e.expectedPrio(t, true)), "prio0": digits(e.expectedPrio(t, false)),
+		"id": s.id, "org": s.org.name, "dlg": dlg, "cost": units(s.cost), "costs": costs, "cap": digits(feeCap(t, e.baseGP)), "prio": digits(e.expectedPrio(t, true)), "prio0": digits(e.expectedPrio(t, false)),
 		"ref": t.BlockRef().Number(), "exp": t.Expiration(), "dep": s.dep, "typed": t.Type() != tx.TypeLegacy,
 	}})
 }
@@ -467,7 +475,7 @@ func (e *env) headEvent() {
 	if bf == nil {
 		bf = new(big.Int)
 	}
-	e.evs.emit(trace.Ev{"e": "Head", "hd": map[string]any{"num": h.Number(), "incl": incl, "rev": rev, "energy": en, "basefee": digits(bf),
+	e.evs.emit(trace.Ev{"e": "Head", "hd": map[string]any{"num": h.Number(), "incl": incl, "rev": rev, "energy": en, "basefee": digits(bf), "bf": bf.String(),
 		"gala": h.Number()+1 >= e.net.FC.GALACTICA, "synced": synced}})
 }
 
